@@ -23,6 +23,7 @@ package main
 
 import (
 	"fmt"
+	"go/constant"
 	"go/token"
 	"go/types"
 	"os"
@@ -42,6 +43,8 @@ type RefLists struct {
 	changed  bool
 	// stores: parameters (of list type) that the function keeps as, or copies into, container storage
 	stores map[*ssa.Parameter]string
+	// assume: values assumed for boolean parameters while a callee is re-examined for one call site
+	assume map[*ssa.Parameter]bool
 }
 
 type sweep struct {
@@ -180,7 +183,7 @@ func (rl *RefLists) rawAt(v ssa.Value, at ssa.Instruction, seen map[ssa.Value]bo
 				if !ok || st.Addr != ssa.Value(ia) {
 					continue
 				}
-				if rl.obj.May(st.Val) && !(rl.spec.CleanAt != nil && rl.spec.CleanAt(st.Val, st)) {
+				if rl.mayUnder(st.Val, st, 0) {
 					return true
 				}
 			}
@@ -237,10 +240,86 @@ func (rl *RefLists) callRaw(call *ssa.Call, idx int, seen map[ssa.Value]bool) bo
 	}
 	for _, f := range rl.calleesOf(call) {
 		if r := rl.rawRet[f]; idx < len(r) && r[idx] {
+			if rl.cleanForConstFlags(call, f, idx) {
+				continue
+			}
 			return true
 		}
 	}
 	return false
+}
+
+// mayUnder: the stored value may be a Reference, under the assumptions made about boolean parameters
+// (rl.assume): a value merged from several edges counts only for the edges those assumptions leave feasible;
+// CopyRegister keeps a Reference as it is.
+func (rl *RefLists) mayUnder(v ssa.Value, at ssa.Instruction, depth int) bool {
+	if depth > 6 {
+		return rl.obj.May(v)
+	}
+	switch x := v.(type) {
+	case *ssa.Phi:
+		for i, e := range x.Edges {
+			if !rl.feasible(x.Block().Preds[i], x.Block()) {
+				continue
+			}
+			if rl.mayUnder(e, lastInstr(x.Block().Preds[i]), depth+1) {
+				return true
+			}
+		}
+		return false
+	case *ssa.Call:
+		if obj := calleeObj(x); obj != nil && obj.Name() == "CopyRegister" && obj.Pkg() != nil && obj.Pkg().Name() == "object" && len(x.Common().Args) == 1 {
+			return rl.mayUnder(x.Common().Args[0], x, depth+1)
+		}
+	}
+	return rl.obj.May(v) && !(rl.spec.CleanAt != nil && rl.spec.CleanAt(v, at))
+}
+
+// feasible: the edge pred -> succ is not excluded by an assumed value of a boolean parameter.
+func (rl *RefLists) feasible(pred, succ *ssa.BasicBlock) bool {
+	if len(rl.assume) == 0 {
+		return true
+	}
+	for _, cc := range edgeConds(pred, succ) {
+		if p, ok := cc.Cond.(*ssa.Parameter); ok {
+			if want, assumed := rl.assume[p]; assumed && (cc.Edge == 0) != want {
+				return false
+			}
+		}
+	}
+	return true
+}
+
+// cleanForConstFlags: the callee's list result may hold References in general, but not for the constant
+// boolean arguments of this call (evalExpressions(list, true) dereferences every element as it is evaluated).
+func (rl *RefLists) cleanForConstFlags(call *ssa.Call, f *ssa.Function, idx int) bool {
+	if len(rl.assume) > 0 || call.Common().IsInvoke() || len(call.Common().Args) != len(f.Params) {
+		return false
+	}
+	assume := map[*ssa.Parameter]bool{}
+	for i, a := range call.Common().Args {
+		k, ok := a.(*ssa.Const)
+		if !ok || k.Value == nil || k.Value.Kind() != constant.Bool {
+			continue
+		}
+		assume[f.Params[i]] = constant.BoolVal(k.Value)
+	}
+	if len(assume) == 0 {
+		return false
+	}
+	rl.assume = assume
+	defer func() { rl.assume = nil }()
+	clean := true
+	eachInstr(f, func(in ssa.Instruction) {
+		ret, ok := in.(*ssa.Return)
+		if !ok || idx >= len(ret.Results) || !clean {
+			return
+		}
+		if v := retVal(ret, idx); rl.isList(v) && rl.rawAt(v, ret, map[ssa.Value]bool{}) {
+			clean = false
+		}
+	})
+	return clean
 }
 
 func (rl *RefLists) calleesOf(call ssa.CallInstruction) []*ssa.Function {
